@@ -251,6 +251,78 @@ class _H(http.server.BaseHTTPRequestHandler):
         pass
 
 
+YAML_NATIVE = b"""openapi: 3.1.0
+info: {title: native, version: '1'}
+paths:
+  /a:
+    get:
+      operationId: a
+      parameters:
+        - name: p
+          in: query
+          schema: {type: string}
+          example: 2020-01-02
+        - name: p
+          in: query
+          schema: {type: string}
+          example: 2020-01-02T03:04:05Z
+      responses: {'200': {description: ok}}
+  /b:
+    get:
+      operationId: b
+      responses:
+        '200':
+          description: ok
+          content:
+            application/xml:
+              schema: {type: string}
+              example: 2021-02-03
+        '201':
+          description: ok
+          content:
+            application/json:
+              schema:
+                type: array
+                example:
+                  - 2021-02-03
+                  - .inf
+                  - !!binary aGk=
+components:
+  schemas:
+    Dates:
+      type: string
+      enum: [2020-01-02, 2020-01-03]
+      default: 1999-12-31
+    When:
+      type: object
+      properties:
+        w:
+          type: array
+          default:
+            - 2020-01-02T03:04:05Z
+        m:
+          enum: [2020-01-02, 1]
+    Fine:
+      type: object
+      properties:
+        d: {type: string, format: date, example: 2020-01-02}
+"""
+
+
+def _zoo_yaml() -> bytes:
+    import io
+
+    from ruamel.yaml import YAML
+
+    from .. import zoo
+    buf = io.BytesIO()
+    y = YAML(typ="safe", pure=True)
+    y.sort_base_mapping_type_on_output = False
+    y.default_flow_style = False          # block style: the dumper's flow output is not always readable by its own loader
+    y.dump(zoo.zoo_warn(), buf)
+    return buf.getvalue()
+
+
 def loader_classes(rep, d: Path) -> None:
     valid = fshist.DOCS["d1"]
     from ruamel.yaml import YAML
@@ -266,6 +338,9 @@ def loader_classes(rep, d: Path) -> None:
         "version-4": (valid.replace(b"3.1.0", b"4.0.0"), False), "version-junk": (valid.replace(b"3.1.0", b"abc"), False),
         "yaml-tab": (b"a:\n\t- b", False), "yaml-anchor-bomb": (b"a: &a [1,2]\nb: [*a,*a,*a]\nopenapi: 3.0.0", False),
         "nested-deep": (b"[" * 400 + b"]" * 400, False),
+        # accepted documents whose WARNINGS carry parts of the document with YAML-native values (dates, timestamps, binary, non-finite numbers)
+        "yaml-native-in-warnings": (YAML_NATIVE, True),
+        "zoo-warn-yaml": (_zoo_yaml(), True),
     }
     _H.table = {}
     for k, (b, ok) in classes.items():
@@ -313,7 +388,9 @@ def loader_classes(rep, d: Path) -> None:
                     if (code != 0) != is_err:
                         rep.violate(f"C06/exit-status/{k}", f"exit {code} but error-level diagnostic printed={is_err} ({label})", input=label,
                                     output=output[-600:])
-                    accepted_as_doc = ok and not (ext == "json" and k == "valid-yaml")
+                    accepted_as_doc = ok and not (ext == "json" and k in ("valid-yaml", "yaml-native-in-warnings", "zoo-warn-yaml"))
+                    if accepted_as_doc and is_err:
+                        rep.violate(f"C06/valid-document-rejected/{k}", f"an acceptable document ({label}) is rejected: {output[-300:]}", input=label)
                     if not is_err and not (work / "out").exists():
                         rep.violate(f"C06/no-diagnostic-no-output/{k}", f"nothing generated and nothing reported ({label})", input=label)
                     if is_err and before != after:
